@@ -453,40 +453,64 @@ theorem combined_sink_appends_one_record_to_every_member (N : NumOps) (ss : List
     ∃ ss' r', writeCombined N ss r = .ok ss' r' ∧ r'.isObject = true ∧ AppendedOne ss ss' :=
   writeCombined_objects N ss r hp hr
 
-/-! ## 5b. `CompassApp::run`: every response handed back has its record — unless it failed input processing -/
+/-! ## 5b. `CompassApp::run`: every response of the batch has its record -/
 
-/-- Full statement wanted: *after `CompassApp::run` the file holds exactly one record per response of the
-    batch*.  False of the code when a query fails input processing (counterexample below): such responses
-    are chained onto the result without being handed to the sink.  Proved for batches whose queries all
-    pass the input plugins (`inputErrors = []`): the records appended are as many as the responses handed
-    back, they are the records of the batch, and the responses handed back are the amended batch. -/
-theorem app_file_has_one_record_per_response_partial (N : NumOps) (sink : FileSink)
-    (queues : List (List Json)) (schedule : List Nat) (hp : sink.poisoned = false)
-    (hw : ∀ r ∈ queues.flatten, Writable N sink.format r)
-    (hdone : ((Run.init sink queues).exec N true schedule).done = true) :
-    ∃ appended : List (List Char),
-      (appRun N true sink queues [] schedule).1.file = sink.file ++ appended ∧
-      appended.length = (appRun N true sink queues [] schedule).2.length ∧
+/-- FULL (after the repair of `CompassApp::run`, which now hands the error responses of queries that failed
+input processing to the sink before the searches start).  For every batch — responses of searched queries
+spread over any number of workers, plus any number of input-processing error responses — every complete
+schedule and both persistence policies: `run` returns; the file is what it was followed by exactly one
+record per response of the batch (the error responses' records first, in order); the caller gets back the
+amended error responses under both policies and, under `PersistResponseInMemory`, the amended search
+responses too — then as many responses as records were written. -/
+theorem app_file_has_one_record_per_response (N : NumOps) (persist : Bool) (sink : FileSink)
+    (queues : List (List Json)) (inputErrors : List Json) (schedule : List Nat)
+    (hp : sink.poisoned = false)
+    (hw : ∀ r ∈ inputErrors ++ queues.flatten, Writable N sink.format r)
+    (hdone : Complete queues schedule) :
+    ∃ (sink' : FileSink) (returned : List Json) (appended : List (List Char)),
+      appRun N persist sink queues inputErrors schedule = some (sink', returned) ∧
+      sink'.file = sink.file ++ inputErrors.map (recordOf N sink.format) ++ appended ∧
       appended.Perm (queues.flatten.map (recordOf N sink.format)) ∧
-      (appRun N true sink queues [] schedule).2.Perm (queues.flatten.map (postOf N sink.format)) := by
-  obtain ⟨app, hfile, hperm, hlen, _⟩ :=
-    complete_batch_file_is_multiset_of_records N true sink queues schedule hp hw hdone
-  have hret := returned_responses N true sink queues schedule hp hw hdone
-  simp only [if_true] at hret
-  refine ⟨app, by simpa [appRun] using hfile, ?_, hperm, by simpa [appRun] using hret⟩
-  simp only [appRun, List.append_nil]
-  rw [hlen, hret.length_eq, List.length_map]
+      (inputErrors.map (recordOf N sink.format) ++ appended).length = inputErrors.length + queues.flatten.length ∧
+      sink'.iterations = sink.iterations + (inputErrors.length + queues.flatten.length) ∧
+      returned.Perm ((if persist then queues.flatten.map (postOf N sink.format) else [])
+        ++ inputErrors.map (postOf N sink.format)) ∧
+      (persist = true → returned.length = inputErrors.length + queues.flatten.length) := by
+  obtain ⟨s₁, hs₁, hfile₁, hit₁, hfmt₁, hpo₁⟩ :=
+    writeSeq_spec N inputErrors sink hp (fun r hr => hw r (List.mem_append_left _ hr))
+  have hw₁ : ∀ r ∈ queues.flatten, Writable N s₁.format r := by
+    intro r hr; rw [hfmt₁]; exact hw r (List.mem_append_right _ hr)
+  have hd := done_of_complete N persist s₁ queues schedule hdone
+  obtain ⟨app, hfile, hperm, hlen, hit⟩ :=
+    complete_batch_file_is_multiset_of_records N persist s₁ queues schedule hpo₁ hw₁ hd
+  have hret := returned_responses N persist s₁ queues schedule hpo₁ hw₁ hd
+  rw [hfmt₁] at hperm hret
+  refine ⟨((Run.init s₁ queues).exec N persist schedule).sink, _, app, by simp only [appRun, hs₁],
+    by rw [hfile, hfile₁], hperm, ?_, ?_,
+    List.Perm.append_right _ hret, ?_⟩
+  · rw [List.length_append, List.length_map, hlen]
+  · rw [hit, hit₁]; omega
+  · intro hpers
+    subst hpers
+    simp only [if_true] at hret
+    rw [List.length_append, hret.length_eq, List.length_map, List.length_map]
+    omega
 
-/-- DEFECT (key `app/input-error-response-not-written`): one good query and one that fails input processing
-(e.g. a query that is not a JSON object): two responses are handed back, the file gets one record -/
-theorem app_input_error_response_not_written_counterexample :
+/-- the witness of the repaired defect (`fixed: d0fd74e`), now a positive example: one good query and one
+that fails input processing give two responses AND two records, under both persistence policies -/
+example :
     let sink : FileSink := { format := .json true, flushEvery := 1, file := [[]], iterations := 0, flushes := 0, poisoned := false }
     let good := Json.obj [("request", .obj [("origin_vertex", .num "0" 0)]), ("route", .null)]
     let bad := Json.obj [("request", .obj [("error", .str "unable to display query")]), ("error", .str "input plugin error")]
-    (appRun anyNum true sink [[good]] [bad] [0]).2.length = 2 ∧
-    (appRun anyNum true sink [[good]] [bad] [0]).1.file.length = 1 + 1 ∧
-    (appRun anyNum false sink [[good]] [bad] [0]).2.length = 1 := by
+    ((appRun anyNum true sink [[good]] [bad] [0]).map fun p => (p.2.length, p.1.file.length)) = some (2, 1 + 2) ∧
+    ((appRun anyNum false sink [[good]] [bad] [0]).map fun p => (p.2.length, p.1.file.length)) = some (1, 1 + 2) ∧
+    ((appRun anyNum true sink [] [bad] []).map fun p => (p.2.length, p.1.file.length)) = some (1, 1 + 1) := by
   decide
+
+/-- complete schedules exist for every batch shape: finishing the workers one after the other is one -/
+example : Complete [[Json.null, .null], [], [.null]] (sequentialSchedule [[Json.null, .null], [], [.null]]) ∧
+    Complete [[Json.null, .null], [], [.null]] [2, 0, 5, 0, 1] ∧ ¬ Complete [[Json.null, .null], [], [.null]] [0, 2] := by
+  unfold Complete; decide
 
 /-! ## 6. Repeated runs append -/
 
